@@ -15,6 +15,8 @@ import (
 	"os"
 	"runtime/debug"
 	"strings"
+	"sync"
+	"time"
 
 	"github.com/octohelm/gengo/pkg/gengo"
 	"github.com/octohelm/gengo/pkg/gengo/snippet"
@@ -30,14 +32,34 @@ type runReq struct {
 	All   bool     `json:"all"`
 	Force bool     `json:"force"`
 	Fail  string   `json:"fail"` // import path of the package in which the generator fails ("" = none)
+	// the context handed to Execute: nil = context.Background(), never cancelled
+	Cancel *cancelReq `json:"cancel,omitempty"`
+}
+
+// cancelReq: when the caller gives up (ctrl-c = cancel, or a deadline that passes).
+//
+//	pre      cancelled before Execute is called
+//	expired  a deadline that lies in the past when Execute is called
+//	new      while package Pkg is generated: in GeneratorNewer.New (the first thing pkgExecute does with a generator)
+//	type     ... in GenerateType of its first tagged type
+//	defer    ... in a deferred callback (all types visited, nothing written yet)
+//
+// With Deadline the in-package points do not call cancel(): the context has a short timeout and the generator
+// waits at that point until it has passed (ctx.Err() = DeadlineExceeded instead of Canceled).
+type cancelReq struct {
+	At       string `json:"at"`
+	Pkg      string `json:"pkg,omitempty"`
+	Deadline bool   `json:"deadline,omitempty"`
 }
 
 type runResp struct {
 	Executed []string `json:"executed"`  // packages the generator was instantiated for (one New per executed package), in order
 	Rendered []string `json:"rendered"`  // packages in which GenerateType rendered something
-	ErrKind  string   `json:"err_kind"`  // "" | "load" | "gen" | "other"
+	ErrKind  string   `json:"err_kind"`  // "" | "load" | "gen" | "ctx" (context.Canceled / DeadlineExceeded) | "other"
 	Err      string   `json:"err"`       // error text (never compared)
 	FailedIn string   `json:"failed_in"` // package whose generator returned the injected error
+	Fired    bool     `json:"fired"`     // the in-package cancellation point was reached
+	CtxDone  bool     `json:"ctx_done"`  // ctx.Err() != nil when Execute returned
 }
 
 var errInjected = errors.New("c08-injected-failure")
@@ -46,6 +68,16 @@ var errInjected = errors.New("c08-injected-failure")
 type recGen struct {
 	log  *runResp
 	fail string
+
+	cancelAt  string // "" | new | type | defer
+	cancelPkg string
+	fire      func() // cancels the context (or waits until its deadline has passed); at most once
+}
+
+func (g *recGen) hit(at, p string) {
+	if g.fire != nil && g.cancelAt == at && g.cancelPkg == p {
+		g.fire()
+	}
 }
 
 func (*recGen) Name() string { return "rec" }
@@ -53,6 +85,13 @@ func (*recGen) Name() string { return "rec" }
 func (g *recGen) New(c gengo.Context) gengo.Generator {
 	p := c.Package("").Pkg().Path()
 	g.log.Executed = append(g.log.Executed, p)
+	g.hit("new", p)
+	if g.cancelAt == "defer" && g.cancelPkg == p {
+		c.Defer(func(gengo.Context) error {
+			g.hit("defer", p)
+			return nil
+		})
+	}
 	if p == g.fail {
 		// fails after all types were visited, before anything is written
 		c.Defer(func(gengo.Context) error {
@@ -60,7 +99,7 @@ func (g *recGen) New(c gengo.Context) gengo.Generator {
 			return errInjected
 		})
 	}
-	return &recGen{log: g.log, fail: g.fail}
+	return &recGen{log: g.log, fail: g.fail, cancelAt: g.cancelAt, cancelPkg: g.cancelPkg, fire: g.fire}
 }
 
 func (g *recGen) GenerateType(c gengo.Context, named *types.Named) error {
@@ -68,6 +107,7 @@ func (g *recGen) GenerateType(c gengo.Context, named *types.Named) error {
 	if n := len(g.log.Rendered); n == 0 || g.log.Rendered[n-1] != p {
 		g.log.Rendered = append(g.log.Rendered, p)
 	}
+	g.hit("type", p)
 	// the output depends only on the sources of the package: one method per tagged type
 	c.Render(snippet.T("func (@Type) Rec() string { return @name }\n\n", snippet.Args{
 		"Type": snippet.ID(named.Obj()),
@@ -110,11 +150,43 @@ func childRun(args []string) int {
 			resp.ErrKind, resp.Err = "load", err.Error()
 			return
 		}
-		if err := c.Execute(context.Background(), gengo.GetRegisteredGenerators("rec")...); err != nil {
+		// the context is made only now: loading is over, a short timeout starts with Execute
+		ctx := context.Background()
+		if cr := req.Cancel; cr != nil {
+			switch cr.At {
+			case "pre":
+				cctx, cancel := context.WithCancel(ctx)
+				cancel()
+				ctx = cctx
+			case "expired":
+				cctx, cancel := context.WithDeadline(ctx, time.Now().Add(-time.Hour))
+				defer cancel()
+				ctx = cctx
+			default:
+				var once sync.Once
+				if cr.Deadline {
+					cctx, cancel := context.WithTimeout(ctx, 60*time.Millisecond)
+					defer cancel()
+					ctx = cctx
+					g.fire = func() { once.Do(func() { resp.Fired = true; <-cctx.Done() }) }
+				} else {
+					cctx, cancel := context.WithCancel(ctx)
+					defer cancel()
+					ctx = cctx
+					g.fire = func() { once.Do(func() { resp.Fired = true; cancel() }) }
+				}
+				g.cancelAt, g.cancelPkg = cr.At, cr.Pkg
+			}
+		}
+		err = c.Execute(ctx, gengo.GetRegisteredGenerators("rec")...)
+		resp.CtxDone = ctx.Err() != nil
+		if err != nil {
 			resp.Err = err.Error()
 			switch {
 			case errors.Is(err, errInjected) || strings.Contains(err.Error(), errInjected.Error()):
 				resp.ErrKind = "gen"
+			case errors.Is(err, context.Canceled) || errors.Is(err, context.DeadlineExceeded):
+				resp.ErrKind = "ctx"
 			default:
 				resp.ErrKind = "other"
 			}
